@@ -104,7 +104,9 @@ class Ctx:
         self.seed = seed
         self.level = level
         self.t0 = time.time()
-        self.build = os.path.join(ROOT, "build", pid)
+        # VERIF_BUILD_TAG: suffix of the build directory, so that several runs of the same check (mutation
+        # lanes, a background thorough run) do not clobber each other
+        self.build = os.path.join(ROOT, "build", pid + os.environ.get("VERIF_BUILD_TAG", ""))
         shutil.rmtree(self.build, ignore_errors=True)
         os.makedirs(self.build, exist_ok=True)
         os.makedirs(os.path.join(ROOT, "evidence"), exist_ok=True)
